@@ -62,16 +62,38 @@ impl ExponentialBackoff {
     }
 }
 
+/// `initial * multiplier^attempt`, capped at `max` (or `Duration::MAX`) *before* converting
+/// back to a `Duration`, so that large attempt numbers saturate instead of panicking.
+fn capped_exponential(
+    initial: Duration,
+    multiplier: f64,
+    attempt: usize,
+    max: Option<Duration>,
+) -> Duration {
+    let cap = max.unwrap_or(Duration::MAX);
+    if initial.is_zero() {
+        return Duration::ZERO;
+    }
+    let exponent = attempt.min(i32::MAX as usize) as i32;
+    let secs = initial.as_secs_f64() * multiplier.powi(exponent);
+    // `!(a < b)` also catches NaN and infinity
+    if !(secs < cap.as_secs_f64()) {
+        return cap;
+    }
+    if secs <= 0.0 {
+        return Duration::ZERO;
+    }
+    Duration::from_secs_f64(secs).min(cap)
+}
+
 impl IntervalFunction for ExponentialBackoff {
     fn next_interval(&self, attempt: usize) -> Duration {
-        let multiplier = self.multiplier.powi(attempt as i32);
-        let interval = self.initial_interval.mul_f64(multiplier);
-
-        if let Some(max) = self.max_interval {
-            interval.min(max)
-        } else {
-            interval
-        }
+        capped_exponential(
+            self.initial_interval,
+            self.multiplier,
+            attempt,
+            self.max_interval,
+        )
     }
 }
 
@@ -118,21 +140,23 @@ impl ExponentialRandomBackoff {
         let delta = duration.as_secs_f64() * self.randomization_factor;
         let min = duration.as_secs_f64() - delta;
         let max = duration.as_secs_f64() + delta;
-        let randomized = rng.random_range(min..=max);
-        Duration::from_secs_f64(randomized.max(0.0))
+        let randomized = rng.random_range(min..=max).max(0.0);
+        if randomized < Duration::MAX.as_secs_f64() {
+            Duration::from_secs_f64(randomized)
+        } else {
+            Duration::MAX
+        }
     }
 }
 
 impl IntervalFunction for ExponentialRandomBackoff {
     fn next_interval(&self, attempt: usize) -> Duration {
-        let multiplier = self.multiplier.powi(attempt as i32);
-        let interval = self.initial_interval.mul_f64(multiplier);
-
-        let capped = if let Some(max) = self.max_interval {
-            interval.min(max)
-        } else {
-            interval
-        };
+        let capped = capped_exponential(
+            self.initial_interval,
+            self.multiplier,
+            attempt,
+            self.max_interval,
+        );
 
         self.randomize(capped)
     }
